@@ -84,6 +84,10 @@ pub struct HybridCfg {
     /// hashes the admission filter rejects
     #[serde(default)]
     pub reject: Vec<u64>,
+    /// inserts of keys with disk-only advice go through `HybridCache::storage_writer` (default placement,
+    /// the writer makes the entry disk-only) instead of `insert_with_properties(Location::OnDisk)`
+    #[serde(default)]
+    pub ondisk_via_writer: bool,
     #[serde(default = "default_blocks")]
     pub blocks: usize,
     #[serde(default = "default_block_pages")]
@@ -474,7 +478,12 @@ impl HybridRunner {
                     None => self.val(k, v),
                 };
                 let _g = self.rt.enter();
-                drop(cache.insert_with_properties(k, val, self.props(k)));
+                if self.hcfg.ondisk_via_writer && self.hcfg.keyloc.get(&k.to_string()).map(|s| s == "ondisk").unwrap_or(false) {
+                    // the writer consults the admission filter itself; a rejected entry is not inserted at all
+                    drop(cache.storage_writer(k).insert(val));
+                } else {
+                    drop(cache.insert_with_properties(k, val, self.props(k)));
+                }
             }
             // insert keeping the returned handle until "drop_h"
             "ins_h" => {
@@ -483,8 +492,14 @@ impl HybridRunner {
                 self.truth.insert(k, v);
                 let val = self.val(k, v);
                 let _g = self.rt.enter();
-                let h = cache.insert_with_properties(k, val, self.props(k));
-                self.held.push(h);
+                if self.hcfg.ondisk_via_writer && self.hcfg.keyloc.get(&k.to_string()).map(|s| s == "ondisk").unwrap_or(false) {
+                    if let Some(h) = cache.storage_writer(k).insert(val) {
+                        self.held.push(h);
+                    }
+                } else {
+                    let h = cache.insert_with_properties(k, val, self.props(k));
+                    self.held.push(h);
+                }
             }
             "drop_h" => {
                 let _g = self.rt.enter();
